@@ -10,9 +10,13 @@ CONSTANTS
   InitMs = 3
   InitRems = {0}
   NTerms = 3
+  ChainPeriods = {2}
+  Starts = {1, 2}
+  NodeAts = {"genesis", "tip"}
   KeepHist = TRUE
   KF_TdposPreInit = FALSE
   KF_XpoaNegativeTs = FALSE
+  KF_TdposTermSetOffset = FALSE
 CONSTRAINT Dump
 VIEW View
 CHECK_DEADLOCK FALSE
